@@ -49,7 +49,7 @@ def violation(res, sig, what, inp):
         res.violations.append({"signature": sig, "what": what, "input": inp})
 
 
-WITH_HYPS = {"PiBas", "PiPack"}
+WITH_HYPS = {"PiBas", "PiPack", "SSE2"}
 
 
 def case_from_replay(rp):
@@ -86,10 +86,10 @@ def correspond(ctx, res, cases, want_hyps=True, wire=False):
     return todo
 
 
-def direct(ctx, res, cases, oracle):
+def direct(ctx, res, cases, oracle, history=False):
     """run the real scheme (no recorder) and hand every case to `oracle(case, out)`"""
     for c in cases:
-        out = se.run_real(c["name"], copy.deepcopy(c["cfg"]), c["db"], c["present"] + c["absent"])
+        out = se.run_real(c["name"], copy.deepcopy(c["cfg"]), c["db"], c["present"] + c["absent"], history=history)
         res.evaluations += 1
         res.nontrivial.add(case_sig(c["name"], c["cfg"], c["db"], c["profile"]))
         res.count("direct:" + c["name"])
